@@ -30,9 +30,9 @@ type RoundResult struct {
 	// (property C02); SelfPred classifies it, SelfDetail describes the state difference.
 	// HostileCandidates: the proposer's candidate list was replaced by the check (CandidateHook)
 	HostileCandidates bool
-	SelfErr    error
-	SelfPred   string
-	SelfDetail string
+	SelfErr           error
+	SelfPred          string
+	SelfDetail        string
 }
 
 // Ledger is the round driver over a set of replicas that follow one chain.
@@ -53,12 +53,21 @@ type Ledger struct {
 	// CandidateHook, when set, may replace the candidate list the round's proposer builds its block from
 	// (a proposer with a hostile mempool; the rest of block building is the node's own code). nil = keep.
 	CandidateHook func(p *simnode.Node, honest []*types.Transaction) []*types.Transaction
+	// PanicProp: property blamed when block building or the proposer's own validation panics (default C02)
+	PanicProp string
 }
 
 type gossipItem struct {
-	tx   *types.Transaction
-	to   *simnode.Node
-	due  int
+	tx  *types.Transaction
+	to  *simnode.Node
+	due int
+}
+
+func (l *Ledger) panicProp() string {
+	if l.PanicProp != "" {
+		return l.PanicProp
+	}
+	return "C02"
 }
 
 func NewLedger(s *Scn) *Ledger {
@@ -162,7 +171,7 @@ func (l *Ledger) Round(nodes []*simnode.Node) *RoundResult {
 		n0 := nodes[s.T.Choose("round.emptyby", len(nodes))]
 		b, pv, st := s.EmptyBlock(n0)
 		if pv != nil {
-			s.R.Violate("C02:empty-block-generation-panicked", "node %d: %v\n%s", n0.ID, pv, st)
+			s.R.Violate(l.panicProp()+":empty-block-generation-panicked", "node %d: %v\n%s", n0.ID, pv, st)
 		}
 		rr.Empty = true
 		rr.Block = b
@@ -197,7 +206,7 @@ func (l *Ledger) Round(nodes []*simnode.Node) *RoundResult {
 			prop, pv, st = s.Propose(p)
 		}
 		if pv != nil {
-			s.R.Violate("C02:propose-panicked", "node %d: %v\n%s", p.ID, pv, st)
+			s.R.Violate(l.panicProp()+":propose-panicked", "node %d: %v\n%s", p.ID, pv, st)
 		}
 		rr.Block = prop.Block
 		rr.Proposer = p
@@ -217,7 +226,7 @@ func (l *Ledger) Round(nodes []*simnode.Node) *RoundResult {
 		built := rr.Proposer.LastApplied
 		serr, pv, st := s.Validate(rr.Proposer, rr.Enc)
 		if pv != nil {
-			s.R.Violate("C02:validation-panicked", "node %d validating its own block h=%d: %v\n%s", rr.Proposer.ID, rr.Height, pv, st)
+			s.R.Violate(l.panicProp()+":validation-panicked", "node %d validating its own block h=%d: %v\n%s", rr.Proposer.ID, rr.Height, pv, st)
 		}
 		if serr != nil {
 			rr.SelfErr = serr
@@ -317,8 +326,11 @@ func (l *Ledger) Agree(nodes []*simnode.Node, prop string) {
 // BringOnline submits go-online transactions for the replicas' own identities.
 func (l *Ledger) BringOnline(nodes []*simnode.Node) {
 	s := l.S
-	for i, n := range nodes {
-		id := s.Ids[i]
+	for _, n := range nodes {
+		id := s.IdentOf(n.Addr)
+		if id == nil {
+			continue
+		}
 		ok := false
 		n.Do(func() { ok = n.App.ValidatorsCache.IsValidated(id.Addr) })
 		if !ok {
